@@ -78,6 +78,21 @@ def c_sectoc(m):
     return '\\section[%s]{%s \\textbf{%s}}' % (m(), m(), m())
 
 
+@_c('section')
+def c_paragraph(m):
+    return '\\paragraph{%s}' % m()
+
+
+@_c('block')
+def c_descbracket(m):
+    return '\\begin{description}\\item[{[%s]}] %s\\item[{%s]}]%s\\end{description}' % (m(), m(), m(), m())
+
+
+@_c('table')
+def c_tabempty(m):
+    return '\\begin{tabular}{lll}%s&%s&\\\\ &%s&%s\\\\ &&%s\\end{tabular}' % (m(), m(), m(), m(), m())
+
+
 @_c('inline')
 def c_textbf(m):
     return '\\textbf{%s}' % m()
@@ -203,7 +218,7 @@ CONTAINERS = ['item', 'quote', 'cell', 'footnote', 'fontarg', 'secbody']
 
 
 SMALL = ['words', 'par', 'textbf', 'itemize', 'tabular', 'math', 'footnote', 'verb', 'trigger', 'display', 'labelref',
-         'subsection']
+         'subsection', 'paragraph', 'tabempty', 'descbracket']
 
 
 def allowed(ctx):
